@@ -263,7 +263,7 @@ class Play:
         ps = self.puppets()
         i = rng.choice(ps)
         kind = rng.choice(["future", "far-future", "past", "copied-sig", "junk", "nil", "wrong-msgsig", "no-msgsig", "id-zero", "replay-own",
-                           "multi-viewsig", "multi-viewsig"])
+                           "multi-viewsig", "multi-viewsig", "no-qc", "no-qc"])
         x = self.fresh("jt")
         tv = v
         vs, ms = None, "nil"
@@ -293,6 +293,17 @@ class Play:
             else:
                 self.L.append(f"sign {i} tmo:{i}:{tv}:{self.curqc} {x}m")
             ms = x + "m"
+        if kind == "no-qc":
+            # correctly signed by its sender, but the sync info carries no QC (aggregate rule: the
+            # aggregate QC could not pair this signer with a high QC)
+            self.L.append(f"sign {i} view:{tv} {x}w")
+            nq_ms = "nil"
+            if self.agg:
+                self.L.append(f"sign {i} tmo:{i}:{tv}:- {x}n")
+                nq_ms = x + "n"
+            self.L.append(f"timeout {x} id={i} view={tv} viewsig={x}w msgsig={nq_ms} qc=-")
+            self.L.append(f"deliver timeout {x}")
+            return
         tid = 0 if kind == "id-zero" else i
         if kind == "replay-own":
             self.L.append(f"deliver timeout own.tmo.{v} from={i}")
